@@ -1,5 +1,6 @@
 SPECIFICATION Spec
-CONSTANTS NP = 1 MaxRuns = 2 MaxTouch = 2
+CONSTANTS MaxRuns = 2 MaxTouch = 2
+  Scens <- ScenExpB
   Settings <- SettingsQuick
   CreatedSetsChanged = TRUE
   KeepHistory = TRUE
